@@ -51,6 +51,11 @@ pub fn dispatch_run(id: &str, run: &mut Run) -> bool {
 }
 
 pub fn dispatch_replay(id: &str, check: &str, case: Value, run: &mut Run) -> Result<(), String> {
+    if let Some(target) = check.strip_prefix("fuzz_") {
+        let hex = case["bytes_hex"].as_str().unwrap_or("");
+        let bytes: Vec<u8> = (0..hex.len() / 2).filter_map(|i| u8::from_str_radix(&hex[2 * i..2 * i + 2], 16).ok()).collect();
+        return crate::fuzzing::replay(target, &bytes);
+    }
     match id {
         "C01" => c01::replay(check, case, run),
         "C02" => c02::replay(check, case, run),
@@ -119,6 +124,11 @@ pub fn survey(id: &str, n: usize, seed: u64) -> i32 {
 }
 
 pub fn worker_main(args: &[String]) -> i32 {
+    if args.len() >= 3 && args[0] == "fuzz-seeds" {
+        let n = crate::fuzzing::write_seeds(&args[1], std::path::Path::new(&args[2]));
+        println!("{n} seeds");
+        return 0;
+    }
     if args.len() >= 3 && args[0] == "c10-lib" {
         println!("{}", c10::library_worker(args[1].parse().unwrap_or(0), args[2].parse().unwrap_or(10)));
         return 0;
